@@ -31,6 +31,10 @@ type functionOperator struct {
 	call         FunctionCall
 	scalarPoints [][]float64
 	pointBuf     []promql.Point
+
+	// samplesAreTimestamps is set when the vector argument is a selector which yields
+	// the timestamps of the selected samples (see query.Options.SelectTimestamps).
+	samplesAreTimestamps bool
 }
 
 type noArgFunctionOperator struct {
@@ -109,6 +113,8 @@ func NewFunctionOperator(funcExpr *parser.Call, call FunctionCall, nextOps []mod
 		vectorIndex:  0,
 		scalarPoints: scalarPoints,
 		pointBuf:     make([]promql.Point, 1),
+
+		samplesAreTimestamps: opts.SelectTimestamps,
 	}
 
 	for i := range funcExpr.Args {
@@ -206,6 +212,11 @@ func (o *functionOperator) Next(ctx context.Context) ([]model.StepVector, error)
 		kept := 0
 		for i := range vector.Samples {
 			o.pointBuf[0].V = vector.Samples[i]
+			// The sample is as old as the step, unless its own timestamp is known.
+			o.pointBuf[0].T = vector.T
+			if o.samplesAreTimestamps {
+				o.pointBuf[0].T = int64(vector.Samples[i])
+			}
 			// Call function by separately passing major input and scalars.
 			result := o.call(FunctionArgs{
 				Labels:       o.series[0],
